@@ -144,3 +144,31 @@ def bounded(params):
     return {"evaluations": evals, "distinct_nontrivial": nontriv, "failures": failures,
             "rule": "seeded 1-D instance-map pairs (length 6, <=3 labels) x reference relabelling {identity, non-consecutive, near 255} x {naive, many-to-one, merge}; non-trivial = at least one unmatched prediction",
             "bound": "length 6; quick 200 pairs"}
+
+
+def copy(params):
+    """copy() of a pair class on a few asymmetric label maps."""
+    import numpy as np
+    import panoptica.utils.processing_pair as PPm
+    cls = getattr(PPm, params.get("cls", "UnmatchedInstancePair"))
+    bad = []
+    scenes = [(np.array([[1, 1, 0, 2], [0, 0, 0, 2], [3, 0, 0, 0]], np.uint8), np.array([[1, 1, 0, 0], [0, 0, 0, 0], [0, 0, 2, 2]], np.uint8)),
+              (np.array([5, 5, 0, 7, 7, 9], np.uint16), np.array([5, 0, 0, 7, 7, 0], np.uint16)),
+              (np.array([[[1, 0], [2, 2]], [[0, 0], [3, 3]]], np.uint32), np.array([[[1, 1], [0, 0]], [[0, 0], [0, 3]]], np.uint32))]
+    for P, R in scenes:
+        try:
+            o = cls(P.copy(), R.copy())
+            c = o.copy()
+            if c is o or type(c) is not type(o):
+                bad.append(f"copy is not a distinct {cls.__name__}")
+                continue
+            for a, src in (("prediction_arr", P), ("reference_arr", R)):
+                x = getattr(c, a)
+                if x.dtype != src.dtype or x.shape != src.shape or not np.array_equal(x, src):
+                    bad.append(f"{a} of the copy differs from the original ({x.tolist()} vs {src.tolist()})")
+            for a in ("n_prediction_instance", "n_reference_instance", "matched_instances", "missed_reference_labels", "missed_prediction_labels"):
+                if hasattr(o, a) and list(np.atleast_1d(getattr(c, a))) != list(np.atleast_1d(getattr(o, a))):
+                    bad.append(f"{a}: copy has {getattr(c, a)}, original {getattr(o, a)}")
+        except Exception as e:
+            bad.append(f"raised {type(e).__name__}: {e}"[:200])
+    return {"violated": bool(bad), "problems": bad[:8]}
